@@ -96,7 +96,7 @@ def run_history(cfg, ops):
         for op in ops:
             kind = op[0]
             strat = None
-            if kind in ('entry', 'exit', 'cancel_all', 'update_active', 'price'):
+            if kind in ('entry', 'exit', 'flip', 'cancel_all', 'update_active', 'price'):
                 s = syms[op[1] % len(syms)]
                 strat = b.strategies[s]
                 p = b.positions[s]
@@ -122,6 +122,27 @@ def run_history(cfg, ops):
                 except (InsufficientMargin, InsufficientBalance, OrderNotAllowed):
                     applied.append(list(op))
                     break
+            elif kind == 'flip':
+                # a plain (not reduce-only) market order on the closing side that is larger than the position: the position changes side,
+                # reduce-only exits resting for the old side now sit on the SAME side as the position
+                if cfg['type'] == 'spot' or not p.is_open:
+                    continue
+                q = abs(p.qty) * op[2]
+                flags.add('flip' if op[2] > 1 else 'plain-order-on-the-closing-side')
+                try:
+                    strat.broker.sell_at_market(q) if p.qty > 0 else strat.broker.buy_at_market(q)
+                    store.orders.execute_pending_market_orders()
+                except (InsufficientMargin, InsufficientBalance, OrderNotAllowed):
+                    applied.append(list(op))
+                    break
+                if len(op) > 3 and op[3] and p.is_open:
+                    # ... and one of those left-over reduce-only orders is reached by the price
+                    left = [o for o in b.rec.orders if o.symbol == s and o.is_active and o.reduce_only and o not in store.orders.to_execute
+                            and ((o.qty > 0) == (p.qty > 0))]
+                    if left:
+                        flags.add('same-side-reduce-only-order-executed')
+                        b.set_price(s, left[0].price)
+                        left[0].execute()
             elif kind == 'exit':
                 if not p.is_open:
                     continue
@@ -165,6 +186,10 @@ def run_history(cfg, ops):
                 store.orders.execute_pending_market_orders()
             elif kind == 'update_active':
                 store.orders.update_active_orders(EX, s)
+                # right after the prune the raw list (not only its is_active subset) holds no final order
+                stale = [o._vf_ord for o in store.orders.get_active_orders(EX, s) if not o.is_active]
+                if stale:
+                    vios.append(('C05:update_active:final-orders-still-listed-as-active-after-the-prune', f'{s}: orders {stale} are final but still in get_active_orders() right after update_active_orders()'))
             else:
                 raise ValueError(kind)
             applied.append(list(op))
@@ -231,6 +256,9 @@ def run_shard(acc, shard, nshards, seed, tier):
         st.tuples(st.just('entry'), st.integers(0, 1), st.sampled_from(['buy', 'buy', 'sell']), qty, st.sampled_from([0, 0, -4, -2, 2, 4])),
         st.tuples(st.just('entry'), st.integers(0, 1), st.sampled_from(['buy', 'buy', 'sell']), qty, st.sampled_from([0, 0, -4, -2, 2, 4])),
         st.tuples(st.just('exit'), st.integers(0, 1), st.sampled_from([0.5, 1.0, 1.0, 0.25]), st.sampled_from([0, -6, -3, 3, 6])),
+        st.tuples(st.just('flip'), st.integers(0, 1), st.sampled_from([1.5, 2.0, 3.0, 0.5]), st.booleans()),
+        st.tuples(st.just('flip'), st.integers(0, 1), st.sampled_from([1.5, 2.0]), st.just(True)),
+        st.tuples(st.just('exit'), st.integers(0, 1), st.sampled_from([0.5, 1.0]), st.sampled_from([-6, -3, 3, 6])),
         st.tuples(st.just('cancel'), st.integers(0, 9)), st.tuples(st.just('execute'), st.integers(0, 9)),
         st.tuples(st.just('execute'), st.integers(0, 9)),
         st.tuples(st.just('cancel_again'), st.integers(0, 9)), st.tuples(st.just('execute_again'), st.integers(0, 9)),
